@@ -162,7 +162,11 @@ def write_struct(representation_code: RepresentationCode, value: Any) -> bytes:
     Note:
         Results are cached only if the bytes are fully determined by the (type and) value of the argument:
         -0.0 and 0.0 are equal, but are represented differently, and objects (e.g. EFLRItem) are mutable.
+        A date-time with fold=1 (second pass through a repeated hour) equals its fold=0 twin, but is another instant.
     """
+
+    if isinstance(value, datetime) and value.fold:
+        return _write_struct(representation_code, value)
 
     if isinstance(value, (str, int, datetime)) or (isinstance(value, float) and value != 0):
         return _write_struct_cached(representation_code, value)
